@@ -60,6 +60,9 @@ func (interp *Interpreter) importSrc(rPath, importPath string, skipTest bool) (n
 		return "", fmt.Errorf("import cycle not allowed\n\timports %s", importPath)
 	}
 	interp.rdir[importPath] = true
+	// The package is not being imported any more when importSrc returns: after a
+	// failure, a later import of the package must not be reported as a cycle.
+	defer delete(interp.rdir, importPath)
 
 	files, err := fs.ReadDir(interp.opt.filesystem, dir)
 	if err != nil {
